@@ -35,6 +35,12 @@ def specs():
                     "cipher_final": ("outinput", "r_cipher_final", I32, {2: ("n_fin", I32)}, []),
                     "cipher_cleanup": ("outinput", "r_cipher_cleanup", I32, {}, [])},
              oracles=["mac_size", "cipher_block_size"], oracle_arity={"mac_size": 1, "cipher_block_size": 1}),
+        dict(name="dec_timestamp", inputs=[],
+             calls={"m_msg_set_err": seterr, "strdup": ("ignore", 1), "log_msg": ("ignore", 0),
+                    "time": ("outinput", "r_time", (64, True), {0: ("now", (64, True))}, [])}),
+        dict(name="dec_authenticate", inputs=[],
+             calls={"m_msg_set_err": seterr, "strdup": ("ignore", 1), "log_msg": ("ignore", 0),
+                    "auth_recv": ("outinput", "r_auth_recv", (32, False), {1: ("kernel_uid", (32, False)), 2: ("kernel_gid", (32, False))}, [])}),
         dict(name="dec_decompress", named_free=True,
              inputs=[M("zip"), ("c.inner_len", "inner_len"), ("c.inner_mem_len", "inner_mem_len"), ("c.inner", "inner_ptr"),
                      ("c.inner_mem", "inner_mem_ptr"), ("malloc_ret", "malloc_ret")],
@@ -75,6 +81,9 @@ def enc_specs():
                     "cipher_iv_size": ("oracle", [0]),
                     "random_pseudo_bytes": ("outinput", "r_rnd", I32, {}, [0, 1])},
              oracles=["cipher_iv_size"], oracle_arity={"cipher_iv_size": 1}),
+        dict(name="enc_authenticate", inputs=[],
+             calls={"m_msg_set_err": ("event", -1, [1]), "strdup": ("ignore", 1), "log_msg": ("ignore", 0),
+                    "auth_recv": ("outinput", "r_auth_recv", (32, False), {1: ("kernel_uid", (32, False)), 2: ("kernel_gid", (32, False))}, [])}),
         dict(name="enc_timestamp",
              inputs=[],
              calls={"m_msg_set_err": ("event", -1, [1]), "strdup": ("ignore", 1), "log_msg": ("ignore", 0),
